@@ -155,13 +155,23 @@ func OpMod(x Value, y Value) Value {
 }
 
 func OpLeftShift(x Value, y Value) Value {
-	result := ToInt(x) << ToInt(y)
+	result := ToInt(x) << shiftCount(y)
 	return IntVal(result)
 }
 
 func OpRightShift(x Value, y Value) Value {
-	result := uint(ToInt(x)) >> ToInt(y)
+	result := uint(ToInt(x)) >> shiftCount(y)
 	return IntVal(int(result))
+}
+
+// shiftCount returns the shift count, it must not be negative
+// (a negative count is a Go run-time panic, also when folding constants)
+func shiftCount(y Value) int {
+	n := ToInt(y)
+	if n < 0 {
+		panic("shift count can't be negative")
+	}
+	return n
 }
 
 func OpBitOr(x Value, y Value) Value {
